@@ -208,7 +208,7 @@ class View:
 TEXTS = ["", "a", "a b", "é", "a/b", "a%20b", "%", "a:b", "a@b", "a?b", "a#b", "..", ".", "./x", "a+b", "a&b=c", "\udc80x", "x.y", ".hid",
          "a%2Fb", "ü.txt", "[x]", "a;b", "\x00", "\x7f", "\U0001f600", "a\tb", "%zz", "%2", "%C3%A9", "%c3%a9", "%FF", "<>\"{}|\\^`", "x‮y",
          "section\n", "\nx", "x\r", "a\x0bb", "x\x85", "tail\x00", "sec\udc80tion", "x\ud800"]
-QVALS = ["v", "", "a b", "é", "a+b", "a&b", "a=b", "%41", "a;b", "#", 1, 0, -5, 10 ** 20, 1.5, -0.0, 1e300, 1e-7, float("inf"), float("nan"),
+QVALS = ["v", "", "a b", "é", "a+b", "a&b", "a=b", "%41", "a;b", "#", 1, 0, -5, 10 ** 20, 1.5, -0.0, 0.0, 1e16, 1e300, 1e-7, float("inf"), float("nan"),
          True, None, ["a", "b"], [1, 2], [], ("x",), "\U0001f600"]
 QKEYS = ["a", "b", "a b", "é", "k+", "k&", "k=", "", "a", "c", "k;", "%41"]
 HOSTS_ARG = urlgen.REGNAMES + urlgen.IPV4 + urlgen.IPV6 + urlgen.IDN + ["", "a b", "a/b", "a@b", "a:b", "[::1]", "A%41", "%zz", "a?b", "a#b", "a[b", "ａ.com", "a＃b"]
